@@ -273,6 +273,32 @@ class SymNumpy:
         return s
 
     @staticmethod
+    def cumsum(x, *a, **k):
+        if not has_sym(x):
+            return _np.cumsum(x, *a, **k)
+        vals = list(_np.asarray(x, dtype=object).flat)
+        out, s = [], 0
+        for v in vals:
+            s = s + v
+            out.append(s)
+        return _np.array(out, dtype=object).view(SymArr)
+
+    @staticmethod
+    def std(x, *a, **k):
+        if not has_sym(x):
+            return _np.std(x, *a, **k)
+        vals = list(_np.asarray(x, dtype=object).flat)
+        n = len(vals)
+        m = 0
+        for v in vals:
+            m = m + v
+        m = m / n
+        var = 0
+        for v in vals:
+            var = var + (v - m) * (v - m)
+        return _sqrt(var / n)
+
+    @staticmethod
     def abs(x):
         if is_sym(x):
             return abs(x)
